@@ -85,6 +85,19 @@ Refilter(recs, out, fa, fp) ==
                 ELSE G[k-1]
   IN G[Len(out)]
 
+(* ---- a delegate that serves the same record objects to every request ------------------------------
+   The records belong to the delegate: a request must leave them as they were, so a later request
+   without filters gets every record with every address (IPIP-484: no parameter = unchanged).
+   As-built server (open finding Dev_C42_DelegateRecordTrimmed): applyFilters stores the filtered
+   address list INTO the peer record it was handed, so every peer-schema record that an earlier
+   filtered request read and kept has lost the addresses that request filtered out.              *)
+Unfiltered(recs) == Filtered(recs, {}, {})
+TrimmedByEarlier(recs, fa, fp, lim) ==
+  LET n == Pulled(recs, fa, fp, lim)
+  IN [i \in 1..Len(recs) |->
+        <<i, IF i <= n /\ recs[i].s = "peer" /\ fa # {} /\ Keep(recs[i], fa, fp) /\ Len(recs[i].as) > 0
+             THEN KeptPos(recs[i].as, fa) ELSE Ident(Len(recs[i].as))>>]
+
 (* as-built client (open finding Dev_C42_LocalFilterCase): filter terms spelled with upper-case
    letters are lower-cased by the server but compared verbatim by the client's local filter:
    no multiaddr protocol has such a name and `UNKNOWN` is not recognised, while transfer
